@@ -178,7 +178,7 @@ def theorems_of(pid):
     for base in property_files(pid):
         src = open(os.path.join(COQ, 'Properties', base + '.v')).read()
         src = re.sub(r'\(\*.*?\*\)', '', src, flags=re.S)
-        out += [(base, t) for t in re.findall(r'^\s*(?:Theorem|Corollary)\s+(\w+)', src, re.M)]
+        out += [(base, t) for t in re.findall(r"^\s*(?:Theorem|Corollary)\s+([\w']+)", src, re.M)]
     return out
 
 
